@@ -971,7 +971,7 @@ def run_reverse_cases(c, case_list):
                 if math.isnan(v):
                     if not math.isnan(x):
                         c.fail("reverse_call of NaN is not NaN", case, xs)
-                elif math.isnan(x) or not (lo_b <= x <= hi_b) or abs(ref(x) - v) > tol:
+                elif math.isnan(x) or not (min(lo_b, hi_b) <= x <= max(lo_b, hi_b)) or abs(ref(x) - v) > tol:
                     c.fail("reverse_call returned x with f(x) != y (or x outside the domain)", case,
                            {"y": v, "x": x, "f(x)": None if math.isnan(x) else ref(x)})
             if strictly_out and (case["detect"] or case["domain"] == [None, None]):
